@@ -126,7 +126,12 @@ def run(rep, tier):
             for e in dst:
                 x = executes(e, None, A, cls3, conds)
                 if x is None:
-                    ok, why = False, "cannot decide whether the label is written for start=%s, first visit=%s" % (st_, nw_)
+                    gtxt = " ".join(guard_strs(fd, e["guards"]))
+                    if '"Dist"' in gtxt and "int_vals_" in gtxt:
+                        ok, why = False, ("whether the label is written depends on the label the node already carries (%s), not on whether this traversal has explored the vertex: "
+                                          "labels left by an earlier labelling (another start vertex, an earlier findStructureId) are kept as if they were distances" % gtxt[:160])
+                    else:
+                        raise AnalysisBroken("GraphDistVisitor::exploreNode: cannot decide whether the label is written for start=%s, first visit=%s (guards %s)" % (st_, nw_, gtxt[:200]))
                 elif x:
                     val = e["value"]
                     if hasattr(val, "args"):
